@@ -140,10 +140,27 @@ package rlp
 //@ func ext_reflectInterface
 //@   option trusted extern=(reflect.Value).Interface
 //@   ensures reflBigPtr(arg0) ==> istype(result, *big.Int)
+//@   ensures reflBytes(arg0) ==> istype(result, slice_byte) && len(unbox(result, slice_byte)) == reflLen(arg0)
 //@   modifies nothing
 
 //@ func ext_reflectSet
 //@   option trusted extern=(reflect.Value).Set
+//@   modifies nothing
+
+//@ func ext_reflectSetUint
+//@   option trusted extern=(reflect.Value).SetUint
+//@   modifies nothing
+
+//@ func ext_reflectIndex
+//@   option trusted extern=(reflect.Value).Index
+//@   modifies nothing
+
+//@ spec abstract fn reflByteArr(v reflect.Value) bool
+//@ spec abstract fn reflBytes(v reflect.Value) bool
+//@ spec abstract fn reflLen(v reflect.Value) int
+//@ func ext_reflectSlice
+//@   option trusted extern=(reflect.Value).Slice
+//@   ensures reflByteArr(arg0) ==> reflBytes(result) && reflLen(result) == arg2 - arg1
 //@   modifies nothing
 
 //@ func ext_reflectValueOf
@@ -156,3 +173,37 @@ package rlp
 //@   requires [table!init] reflBigPtr(val)
 //@   ensures [canon] result == nil ==> @select(ghost(slen), ref(s)) == 0 || @select(ghost(sfirst), ref(s)) != 0
 //@   modifies *s, ghost(slen), ghost(sfirst), heap("math/big.Int")
+
+// Byte arrays in the streaming decoder (C08): an accepted value consumes its input exactly once - after a
+// successful decode the stream is re-armed (kind < 0), so the bytes just decoded cannot be handed out again to
+// the next field. Kind / readUint / readFull are trusted stubs stating what they do to the cached kind.
+//@ func Stream.Kind
+//@   option trusted
+//@   requires s != nil
+//@   ensures err == nil ==> s.kind == kind && s.size == size
+//@   modifies *s
+
+//@ func Stream.readUint
+//@   option trusted
+//@   requires s != nil
+//@   ensures s.kind == 0 - 1
+//@   modifies *s
+
+//@ func Stream.readFull
+//@   option trusted
+//@   requires s != nil
+//@   ensures s.kind == 0 - 1
+//@   modifies *s, elems(buf)
+
+//@ func Stream.uint
+//@   property C08
+//@   requires s != nil
+//@   ensures [armed] result1 == nil ==> s.kind == 0 - 1
+//@   modifies *s
+
+//@ func decodeByteArray
+//@   property C08
+//@   requires s != nil
+//@   requires [table!init] reflByteArr(val)
+//@   ensures [consumed] result == nil ==> s.kind == 0 - 1
+//@   modifies *s, heap("uint8")
